@@ -33,7 +33,8 @@ option_name = st.one_of(
 ini_path = st.one_of(gen.rel_path.filter(lambda s: s.strip() == s), st.sampled_from(["Packages", ".", "repo", "src pkgs", "debug/tree", "cert.pem", "a=b/c", "%s/x"]))
 ti_version = st.one_of(gen.numeric_version.filter(lambda v: all(p.isdigit() and p for p in v.split("."))),
                        gen.freeform_version.map(lambda s: s.strip()).filter(lambda s: len(s) > 0 and not s[0].isdigit()))
-platform_name = st.one_of(st.sampled_from(["xen", "x86_64", "i386", "ppc64le", "efi", "Xen", "s390x"]), st.from_regex(r"[A-Za-z0-9_]{1,6}", fullmatch=True))
+platform_name = st.one_of(st.sampled_from(["xen", "x86_64", "i386", "ppc64le", "efi", "Xen", "s390x", "xen-pv", "x86_64-efi", "a-b-c", "xen-x86_64", "pv-i386"]),
+                          st.from_regex(r"[A-Za-z0-9_]{1,6}(-[A-Za-z0-9_]{1,4})?", fullmatch=True))
 TI_ID_POOL = ["Server", "Client", "optional", "HA", "RS", "LB", "A", "b", "Z9", "Workstation"]
 ti_id = st.one_of(st.sampled_from(TI_ID_POOL), st.from_regex(r"[A-Za-z0-9]{1,6}", fullmatch=True))
 checksum_type = st.sampled_from(["md5", "sha1", "sha256", "sha512", "SHA256", "blake2b"])
@@ -72,6 +73,10 @@ def tree_desc(draw, max_top=3, max_depth=3, allow_empty=False, family_filter=Non
     bp = {"name": draw(ini_text), "short": draw(ini_text), "version": draw(ti_version)} if layered else None
     arch = draw(st.one_of(gen.arch_pool, st.sampled_from(["src", "src", "x86_64"])))
     platforms = draw(st.lists(platform_name, max_size=3, unique=True))
+    # KF-C04-platform-arch-suffix: a platform '<x>-<tree arch>' is written as [images-<x>-<arch>] and read back as platform '<x>';
+    # excluded by construction (the name is kept dashed, its tail is changed)
+    # (for every arch the tree can have at some point of its life: the checks change the arch of a written tree)
+    platforms = sorted(set(p + "_" if any(p.endswith("-" + a) for a in gen.ARCH_POOL + ["src", arch]) else p for p in platforms))
     ts = draw(timestamps if timestamps is not None else st.one_of(st.integers(1, 2 ** 31), st.integers(-5, -1), st.integers(2 ** 31, 2 ** 40), st.just(1386857206),
                                                                  st.sampled_from([2 ** 53 + 1, 1758844800123456789, 2 ** 63 - 1, 10 ** 20 + 7, -(2 ** 53) - 1, -1758844800123456789]), st.integers(2 ** 53, 2 ** 70),
                                                                  st.integers(-(2 ** 70), -(2 ** 53))))
@@ -105,7 +110,9 @@ def tree_desc(draw, max_top=3, max_depth=3, allow_empty=False, family_filter=Non
     media = None
     if draw(st.integers(0, 2)) == 0:
         total = draw(st.integers(1, 9))
-        media = {"discnum": draw(st.integers(1, total)), "totaldiscs": total}
+        media = {"discnum": draw(st.integers(0, total)), "totaldiscs": total}      # discs are counted from 0 by some producers
+        if media["discnum"] > 0 and draw(st.integers(0, 9)) == 0:
+            media["totaldiscs"] = 0                                                   # "of an unknown number"
     checksums = draw(st.dictionaries(st.one_of(option_name, ini_path.filter(lambda p: "=" not in p and ":" not in p)).map(_norm_rel).filter(
         lambda p: p and p[0] not in "#;[/" and p.strip() == p), st.tuples(checksum_type, checksum_value).map(list), max_size=4)) if draw(st.booleans()) else {}
     if draw(st.integers(0, 3)) == 0:
@@ -419,4 +426,6 @@ def labels(desc):
             out.append(k)
     if len(desc["variants"]) >= 2:
         out.append(">=2-top-variants")
+    if any("-" in p for p in desc["images"]):
+        out.append("images-for-dashed-platform")
     return out
